@@ -48,7 +48,10 @@ Definition spec_check (c : chain) (p : pool) (o : obs) : list Z :=
   chk 8 (forallb (fun '(k, r) => eqb_list Z.eqb (blocks_between c k k) (match r with Some x => [x] | None => [] end)) (ob_bseq o) &&
          forallb (fun '(lo, hi, l) => eqb_list Z.eqb (blocks_between c lo hi) l) (ob_brange o) &&
          forallb (fun '(num, l) => (2 ^ 63 <=? num) || eqb_list Z.eqb (blocks_between c (h - num + 1) h) l) (ob_blast o) &&
-         forallb (fun '(sq, ct, l) => eqb_list Z.eqb (blocks_between c (sq + 1) (sq + ct)) l) (ob_bsince o)).
+         forallb (fun '(sq, ct, l) => eqb_list Z.eqb (blocks_between c (sq + 1) (sq + ct)) l) (ob_bsince o)) ++
+  (* every block query API: blocks, their transactions and per input owner / coins / hours /
+     CalculatedHours at the time of the block before the spending block, from the chain alone *)
+  chk 11 (forallb (fun '(api, args, r) => eqb_option (eqb_list eqb_brow) (spec_bq c api args) r) (ob_bq o)).
 Fixpoint spec_steps (i : Z) (c : chain) (steps : list hstep) : list (Z * list Z) :=
   match steps with
   | [] => []
